@@ -1,4 +1,5 @@
 import TFV.Properties.Split
+import TFV.Properties.Src.GetNJobs
 #print axioms TFV.Split.C16_cover
 #print axioms TFV.Split.C16_cover_weak
 #print axioms TFV.Split.C16_cuts
@@ -8,3 +9,4 @@ import TFV.Properties.Split
 #print axioms TFV.Split.C16_normJobs
 #print axioms TFV.Split.C16_rowwise
 #print axioms TFV.Split.C16_getFitness
+#print axioms TFV.SrcTie.C16_src_get_n_jobs
